@@ -148,6 +148,7 @@ func main() {
 	close(jobs)
 	wg.Wait()
 	rep.Sample(cases[len(cases)/2])
+	exportDuringImport(rep, args.Seed)
 	rep.Finish()
 }
 
